@@ -307,6 +307,10 @@ def foreign_scenarios(cases, prop):
             pol["terms"][0]["accept"] = False
         elif sh == "reject-only":
             pol["terms"] = []
+        elif sh in ("exact-filter", "orlonger-filter", "upto-filter"):
+            # a range the targets never ask for, written with a match type the agent itself never writes
+            kind = {"exact-filter": "exact", "orlonger-filter": "orlonger", "upto-filter": "upto /11"}[sh]
+            pol["terms"][0]["filters"] = flt(["a", "b"]) + [f"{ATOM['d'][0]} {kind}"]
         irr = Irr(); running = []; policies = {}
         tgt = {"same": (["a", "b"], ["c"]), "other": (["a"], []), "empty": ([], [])}.get(c["target"])
         if tgt is not None:
@@ -323,4 +327,46 @@ def foreign_scenarios(cases, prop):
                     "runs": [{"running": running, "irr": irr.db, "faults": [], "repeat": False,
                               "expect": {"prop": prop, "c16": False, "foreign": True, "policies": policies}}],
                     "meta": dict(c, family="foreign")})
+    return out
+
+def daemon_scenarios(prop):
+    """C01 'all sequences of consecutive runs', in daemon mode: one agent process runs the job several times;
+    between runs the router may lose its ephemeral data (reboot).  Nothing the process remembers from an
+    earlier run may stand in for reading the router again."""
+    out = []
+    for k, (sessions, reset_before, eph_has) in enumerate([(3, [3], False), (3, [2], True), (3, [], False), (4, [2, 4], False)]):
+        irr = Irr(); running = []; policies = {}; eph0 = []
+        for name, tgt in [("d-both", (["a", "b"], ["c"])), ("d-v4", (["r11"], [])), ("d-empty", ([], []))]:
+            expr = irr.asset_with(*tgt)
+            running.append(stmt(name, f"/* bgpfu-fltr: {expr} */"))
+            policies[name] = exp(True, True, "ok", tgt[0], tgt[1], expr, "daemon")
+            if eph_has and (tgt[0] or tgt[1]):
+                eph0.append(installed(name, ["a"], []))
+        out.append({"case": f"{prop}-dm{k}", "instance": "bgpfu", "eph0": eph0,
+                    "daemon": {"period": 1, "sessions": sessions, "reset_before": reset_before},
+                    "runs": [{"running": running, "irr": irr.db, "faults": [], "repeat": False,
+                              "expect": {"prop": prop, "c16": False, "policies": policies}}],
+                    "meta": {"family": "daemon", "sessions": sessions, "reset_before": reset_before}})
+    return out
+
+def tamper_scenarios(prop):
+    """C02: the agent installs policies itself (run 1); then somebody changes the ephemeral instance by hand
+    (run 2 starts from the tampered state) while the targets stay the same or change."""
+    out = []
+    k = 0
+    for how in ("drop-reject", "drop-reject-and-add-filter", "add-accept-all-term"):
+        for tgt2 in ("same", "other"):
+            irr1 = Irr(); irr2 = Irr(); running = []; pol1 = {}; pol2 = {}
+            t1 = (["a", "b"], ["c"]); t2 = t1 if tgt2 == "same" else (["a"], [])
+            e1 = irr1.asset_with(*t1); e2 = irr2.asset_with(*t2)          # same set name in both databases
+            running.append(stmt("tampered", f"/* bgpfu-fltr: {e1} */"))
+            pol1["tampered"] = exp(True, True, "ok", t1[0], t1[1], e1, f"tamper {how}")
+            pol2["tampered"] = exp(True, True, "ok", t2[0], t2[1], e2, f"tamper {how}")
+            out.append({"case": f"{prop}-t{k}", "instance": "bgpfu", "eph0": [],
+                        "runs": [{"running": running, "irr": irr1.db, "faults": [], "repeat": False,
+                                  "expect": {"prop": prop, "c16": False, "policies": pol1}},
+                                 {"running": running, "irr": irr2.db, "faults": [], "repeat": False, "tamper": how,
+                                  "expect": {"prop": prop, "c16": False, "foreign": True, "policies": pol2}}],
+                        "meta": {"family": "tamper", "how": how, "target": tgt2}})
+            k += 1
     return out
